@@ -190,6 +190,77 @@ func checkRowCacheIndexes(e *Env, rc *cache.RowCache, t *Table, clientIdx []mode
 			return
 		}
 	}
+	// near-miss probes on multi-column schema indexes: the values of one row's
+	// columns combined with another row's must lead to a row only if a scan finds one
+	for k, idx := range t.Indexes {
+		if k == 0 || len(idx) < 2 || len(scan) == 0 || !mon[t.Indexes[0][0]] {
+			continue
+		}
+		first := t.Columns[t.Indexes[0][0]]
+		ok := first != nil && first.Type.Key.Type == "string" && len(t.Indexes[0]) == 1
+		vals := make([][]Value, len(idx))
+		for i, c := range idx {
+			if !mon[c] {
+				ok = false
+			}
+			seen := map[string]bool{}
+			for _, u := range SortedKeys(scan) {
+				if v := scan[u][c]; !seen[v.String()] && len(v.Set) == 1 {
+					seen[v.String()] = true
+					vals[i] = append(vals[i], v)
+				}
+			}
+		}
+		if !ok {
+			continue
+		}
+		var ty reflect.Type
+		for _, m := range models {
+			ty = reflect.TypeOf(m).Elem()
+			break
+		}
+		tuple := make([]Value, len(idx))
+		n := 0
+		var rec func(i int)
+		rec = func(i int) {
+			if e.Stopped() || n >= 24 {
+				return
+			}
+			if i == len(idx) {
+				n++
+				probe := Row{t.Indexes[0][0]: SetOf(AStr("\x01no-such-value"))}
+				for j, c := range idx {
+					probe[c] = tuple[j]
+				}
+				var want []string
+				for _, u := range SortedKeys(scan) {
+					same := true
+					for j, c := range idx {
+						if scan[u][c].String() != tuple[j].String() {
+							same = false
+						}
+					}
+					if same {
+						want = append(want, u)
+					}
+				}
+				gu, _, err := rc.RowByModel(ModelFromRow(t, ty, "", probe))
+				e.Probes["c05_near_miss_probe"]++
+				if err != nil || (len(want) == 0 && gu != "") || (len(want) == 1 && gu != want[0]) {
+					e.ViolateK("C05.lookup", "near-miss:schema-index", "%s: RowByModel on table %s with %v = %v returned (%q, %v); a scan of the cache finds %v", who, t.Name, idx, tuple, gu, err, want)
+				}
+				return
+			}
+			for _, v := range vals[i] {
+				tuple[i] = v
+				rec(i + 1)
+			}
+		}
+		rec(0)
+		if e.Stopped() {
+			return
+		}
+	}
 	// lookups by model
 	for _, u := range SortedKeys(scan) {
 		m := models[u]
